@@ -10,6 +10,15 @@ CHECKS = {
          "composite shapes up to (2,), closed-form metrics, metric laws incl. triangle inequality in H^1; unsat = holds for every real input in the bound",
          "real-number semantics (no rounding); z3 verdicts; sympy normal forms; see evidence.assumptions / trusted_base", "3/C01"),
 }
+_T = "symbolic execution of the real NumPy code over exact reals (normal form + z3 QF_NRA), per-path witness replay on the float code"
+_N = "real-number semantics (no rounding); z3 verdicts; sympy normal forms; stubs and assumptions listed in the evidence"
+def _add(pid, text, ref=None, tech=_T, note=_N, eng=E1):
+    CHECKS[pid] = (eng, tech, text, note, ref or f"3/{pid}")
+_add("C02", "bounded symbolic verification of every isometry constructor: form preservation, distance preservation, orientation, closure under composition/inverse by one inductive step; polynomial constructors n<=3/4, find_isometry family n<=2 with a nondeterministic null-space stub")
+_add("C03", "bounded symbolic verification of the group-action laws (associativity, identity, inverse, type, shape, representation boundary) for all 15 object classes with symbolic invertible matrices, ambient dimension 3 (quick) / 2..4 (thorough), real and complex")
+_add("C05", "bounded symbolic verification: all words over {a,b,A,B} up to length 4 (quick) / 5 (thorough) with symbolic invertible generator matrices; every derived representation against an independent reference; Fox fundamental formula and cocycle annihilation")
+_add("C16", "bounded symbolic verification of chart conversions (real and complex, dimensions 1..3 / 1..5), chart membership path analysis, affine maps, subspace intersection with a null-space stub")
+_add("C17", "bounded symbolic verification: homomorphism / identity / determinant / invariant-form identities for sl2_irrep (n<=6), sl2_to_so21, gln/sln adjoint (n<=3), slc_to_slr, sl2c_to_so31, block_include and the lie.hom wrappers, single matrices and stacks")
 NA = {}
 def main():
     checks = []
